@@ -24,8 +24,17 @@ class Faults:
         self.fail_read_at = None      # (k-th read call, status) -> return status
         self.fail_write_at = None     # (k-th write call, status)
         self.short_write_at = None    # not expressible in SFTP (write is all-or-error); kept for symmetry
+        self.cut_at = None            # ("read"|"write", k, kind): the link is lost while the k-th op is served
+        self.link = None              # set by SftpSession
         self.reads = 0
         self.writes = 0
+        self.log = []                 # (op, k, offset, length, outcome) of every handle read/write
+
+    def maybe_cut(self, op, k):
+        c = self.cut_at
+        if c is not None and c[0] == op and c[1] == k and self.link is not None:
+            self.cut_at = None
+            self.link.cut(None, c[2])
 
 
 class Handle(SFTPHandle):
@@ -50,8 +59,10 @@ class Handle(SFTPHandle):
         if f is not None:
             k = f.reads
             f.reads += 1
+            f.maybe_cut("read", k)
             if f.fail_read_at is not None and f.fail_read_at[0] == k:
                 f.sim.fault("read_failed")
+                f.log.append(("read", k, offset, length, "status %d" % f.fail_read_at[1]))
                 return f.fail_read_at[1]
             if f.p_short_read and length > 1 and f.sim.choose_bool(f.p_short_read):
                 length = 1 + f.sim.choose(length - 1)
@@ -63,8 +74,10 @@ class Handle(SFTPHandle):
         if f is not None:
             k = f.writes
             f.writes += 1
+            f.maybe_cut("write", k)
             if f.fail_write_at is not None and f.fail_write_at[0] == k:
                 f.sim.fault("write_failed")
+                f.log.append(("write", k, offset, len(data), "status %d" % f.fail_write_at[1]))
                 return f.fail_write_at[1]
         return SFTPHandle.write(self, offset, data)
 
@@ -210,6 +223,7 @@ class SftpSession:
             faults = fl
 
         self.link = link or Link(sim, latency=(latency, latency))
+        self.faults.link = self.link
         self.p = ssh.Pair(sim, link=self.link, **(pair_kw or {}))
         self.p.ts.set_subsystem_handler("sftp", SFTPServer, Stub)
         self.p.start(timeout=60)
